@@ -6,6 +6,7 @@ mod cycles;
 mod enc_x86;
 mod hist;
 mod rng;
+mod threads;
 mod util;
 
 use std::io::{BufWriter, Write};
@@ -26,6 +27,7 @@ fn main() {
         "cycles" => cycles::run(&a, &mut out),
         "counter" => counter::run(&a, &mut out),
         "alloc" => alloc::run(&a, &mut out),
+        "threads" => threads::run(&a, &mut out),
         x => {
             eprintln!("unknown command {x}");
             std::process::exit(2);
